@@ -179,11 +179,19 @@ type genState struct {
 	metas []MetaEntry
 }
 
+var shapeNames = []string{"", "lowercamel", "snake", "allcaps", "acronym", "digit", "underscore"}
+
 func (g *genState) shape(label string) Shape {
-	if !g.cfg.Shapes {
+	if !g.cfg.Shapes || g.cfg.avoid("shape:field") {
 		return ShUpperCamel
 	}
-	return Shape(rapid.IntRange(0, 6).Draw(g.t, label+"_shape"))
+	var ok []Shape
+	for i := 0; i <= 6; i++ {
+		if i == 0 || !g.cfg.avoid("shape:field:"+shapeNames[i]) {
+			ok = append(ok, Shape(i))
+		}
+	}
+	return ok[rapid.IntRange(0, len(ok)-1).Draw(g.t, label+"_shape")]
 }
 
 func (g *genState) doc(label string) string {
@@ -261,10 +269,20 @@ func GenProgram(t *rapid.T, cfg GenCfg) *Program {
 	names := make([]string, np)
 	for i := range names {
 		names[i] = g.nm.Name(t, fmt.Sprintf("pkt%d", i), ShUpperCamel)
-		if cfg.Shapes && rapid.IntRange(0, 3).Draw(t, "pktshape") == 0 {
+		if cfg.Shapes && !cfg.avoid("shape:packet") && rapid.IntRange(0, 3).Draw(t, "pktshape") == 0 {
 			// packet names of other shapes are a C07 matter
 			g.nm.used[norm(names[i])] = false
-			names[i] = g.nm.Name(t, fmt.Sprintf("pkt%d", i), g.shape("pkt"))
+			var ok []Shape
+			for s := 1; s <= 6; s++ {
+				if !cfg.avoid("shape:packet:" + shapeNames[s]) {
+					ok = append(ok, Shape(s))
+				}
+			}
+			if len(ok) > 0 {
+				names[i] = g.nm.Name(t, fmt.Sprintf("pkt%d", i), ok[rapid.IntRange(0, len(ok)-1).Draw(t, "pktshapekind")])
+			} else {
+				g.nm.used[norm(names[i])] = true
+			}
 		}
 	}
 	// MetaData
